@@ -1,7 +1,29 @@
+import AuModel.Outcome
 import Driver.Util
+
+/-! Driver commands for C01.
+
+  outcome <op> <samedim 0|1> <policy 0|1> <opok 0|1>   →  ok | soft | hard
+  ops                                                   →  space-separated list of operation names
+-/
 open Au
 
-def dispatchC01 : List String → Option String
-  | _ => none
+def opName (op : Op) : String := (reprStr op).replace "Au.Op." ""
 
-/-! Driver commands for C01. -/
+def opOfName? (s : String) : Option Op := Op.all.find? (fun o => opName o == s)
+
+def cmdOutcome (args : List String) : String :=
+  match args with
+  | [o, sd, p, k] =>
+    match opOfName? o with
+    | none => "bad-op"
+    | some op =>
+      if !(["0", "1"].contains sd && ["0", "1"].contains p && ["0", "1"].contains k) then "bad-op" else
+      match outcome op (sd == "1") (p == "1") (k == "1") with
+      | .ok => "ok" | .softNo => "soft" | .hard => "hard"
+  | _ => "bad-op"
+
+def dispatchC01 : List String → Option String
+  | "outcome" :: args => some (cmdOutcome args)
+  | ["ops"] => some (" ".intercalate (Op.all.map opName))
+  | _ => none
